@@ -140,6 +140,7 @@ CANARIES = {
         ("truncated-on-local-reading", "stix2/utils.py", "text", ["                ts = ts.astimezone(pytz.utc)\n", "                pass\n"], "C15.utc"),
         ("copy-loses-precision", "stix2/utils.py", "text", ["    def __reduce_ex__(self, protocol):", "    def _unused_reduce(self, protocol):"], "C15.value-object"),
         ("plain-date-unconverted", "stix2/utils.py", "text", ["    if not isinstance(dttm, dt.datetime):\n", "    if False:\n"], "C15.api-domain"),
+        ("precision-compared-with-a-string", "stix2/v20/common.py", "text", ["== Precision.MILLISECOND:", "== 'millisecond':"], "C15.value-object"),
     ],
     "C16": [
         ("window-off-by-one", "stix2/canonicalization/NumberToJson.py", "int+1", ["21 -> 22"], "C16.number-constants"),
